@@ -146,7 +146,7 @@ func init() {
 	run.Register(run.Prop[HistCase]{
 		ID:    "C08",
 		Level: "exploration",
-		Rule: "case = configuration (all key/value types, both formats, default and custom marshaler, all caches) + fill + program of <=60/120 ops over 3 slots; EVERY Store(name, bytes) call seen by the recording store is checked: name == unpadded URL-safe base64 of an independently implemented BLAKE2b-256 of the bytes; the bytes decode with the reference decoder and re-encode byte-identically with the reference encoder (so they are a function of entries + child names only); one content -> one name; one name -> one byte string; equal root names across persisted versions => equal model contents (hence different contents => different names); the last version is persisted again by a writer opened WITHOUT ValuesLike (registered types) and must get the same root name. " +
+		Rule: "case = configuration (all key/value types incl. float64 values with both zeros, both formats, default and custom marshaler, all caches) + fill + program of <=60/120 ops over 3 slots; EVERY Store(name, bytes) call seen by the recording store is checked: name == unpadded URL-safe base64 of an independently implemented BLAKE2b-256 of the bytes; the bytes decode with the reference decoder and re-encode byte-identically with the reference encoder (so they are a function of entries + child names only); one content -> one name; one name -> one byte string; equal root names across persisted versions => equal model contents (hence different contents => different names); the last version is persisted again by a writer opened WITHOUT ValuesLike (registered types) and must get the same root name. " +
 			"Non-trivial = the history persisted at least twice AND some node content was written at least twice (reached by different routes); distinct by case hash",
 		Assumptions: []string{"BLAKE2b-256, base64 and both node encoders are re-implemented in harness/ref (RFC 7693 test vector checked in C14)"},
 		Gen:         genC08,
